@@ -267,11 +267,14 @@ def _run_n(app, sb, fixset, R, key, ci):
     elif entry == "api-path":
         try:
             a = PyMarkdownApi().log_critical_and_above().set_string_property("mode.return_code_scheme", scheme)
-            res = a.fix_path(sb.cwd)
+            res = app.guarded(lambda: a.fix_path(sb.cwd))
             R.count("fix_invocations")
             R.count("api_fix_calls")
         except PyMarkdownApiException:
             R.skip("fix-api-exception(C15)")
+            return
+        except app.ApiWatchdog:
+            R.skip("fix-watchdog")
             return
         announced = {os.path.basename(p) for p in res.files_fixed}
     else:
@@ -279,11 +282,14 @@ def _run_n(app, sb, fixset, R, key, ci):
         text = files[n0]
         try:
             a = PyMarkdownApi().log_critical_and_above().set_string_property("mode.return_code_scheme", scheme)
-            res = a.fix_string(text)
+            res = app.guarded(lambda: a.fix_string(text))
             R.count("fix_invocations")
             R.count("api_fix_calls")
         except PyMarkdownApiException:
             R.skip("fix-api-exception(C15)")
+            return
+        except app.ApiWatchdog:
+            R.skip("fix-watchdog")
             return
         R.count("files_judged")
         norm = lambda t: t.replace("\r\n", "\n").replace("\r", "\n")  # noqa: E731  (no file: text-mode newline translation is not a change)
